@@ -74,6 +74,15 @@ class ParsingContext:
         self.recursion_depth = self.unified_cycle_context.recursion_depth
         self.currently_parsing = self.unified_cycle_context.schema_stack.copy()
 
+    def unified_leave_without_parsing(self) -> None:
+        """Balance an enter call whose detection result was not CONTINUE_PARSING (see unified_cycle_detection)."""
+        from .unified_cycle_detection import unified_leave_without_parsing
+
+        unified_leave_without_parsing(self.unified_cycle_context)
+
+        # Update legacy fields for backward compatibility
+        self.recursion_depth = self.unified_cycle_context.recursion_depth
+
     def clear_cycle_state(self) -> None:
         """Clear both legacy and unified cycle detection state."""
         # Clear legacy state
